@@ -129,6 +129,13 @@ func parsePlugins(ifi rawInterface, maxInterval time.Duration, epoch time.Time) 
 			return nil, err
 		}
 
+		// Make sure the URI fits within the option's length field so that the
+		// router advertisement can be encoded.
+		ra := &ndp.RouterAdvertisement{Options: []ndp.Option{cp.Portal}}
+		if _, err := ndp.MarshalMessage(ra); err != nil {
+			return nil, fmt.Errorf("captive portal URI cannot be encoded: %v", err)
+		}
+
 		plugins = append(plugins, cp)
 	}
 
